@@ -23,3 +23,11 @@ package errors
 //@   dispatch OrdaError : *singleOrdaError | *MultipleOrdaErrors
 //@   ensures[is-an-error] result != nil
 //@   modifies nothing
+
+// ToArray: one entry per collected error, in order
+//@ func (*MultipleOrdaErrors).ToArray
+//@   mode math
+//@   props C16 C13
+//@   loop 0 invariant len(errs) == rangeindex + 1 && rangeindex + 1 <= len(its.errs)
+//@   ensures[one-per-error] len(result) == len(its.errs)
+//@   modifies nothing
